@@ -168,6 +168,7 @@ class Exec(object):
     def new_ref(self, kind, cls_id=None):
         r = self.next_ref[0]
         self.next_ref[0] += 1
+        CUR_NEXT_REF[0] = self.next_ref[0]
         self.allocated.append(r)
         self.assumptions.append(ty(z3.IntVal(r)) == kind)
         if cls_id is not None:
@@ -188,6 +189,44 @@ class Exec(object):
         if k not in self._locals_cache:
             self._locals_cache[k] = local_names(unit.node)
         return self._locals_cache[k]
+
+    def close_refs(self, v):
+        """Heap closedness, instantiated lazily (DESIGN Appendix B): a reference read out of a base heap array
+        (the initial heap, or content havocked by a callee contract) denotes an object that existed when that
+        array came into being, hence is below the allocation frontier of that moment; objects allocated later
+        can not alias it."""
+        seen = self.__dict__.setdefault("_close_seen", set())
+        v = simp(v)
+        stack = [v]
+        while stack:
+            x = stack.pop()
+            i = x.get_id()
+            if i in seen:
+                continue
+            seen.add(i)
+            if not z3.is_app(x):
+                continue
+            k = x.decl().kind()
+            bound = None
+            if k == z3.Z3_OP_SELECT and x.sort() == Val:
+                a = x.arg(0)
+                if z3.is_const(a) and a.decl().kind() == z3.Z3_OP_UNINTERPRETED:
+                    bound = ARRAY_BOUND.get(a.decl().name())
+                elif z3.is_app(a) and a.decl().kind() == z3.Z3_OP_SELECT and z3.is_const(a.arg(0)) \
+                        and a.arg(0).decl().kind() == z3.Z3_OP_UNINTERPRETED:
+                    bound = ARRAY_BOUND.get(a.arg(0).decl().name())
+            elif k == z3.Z3_OP_SEQ_NTH and x.sort() == Val:
+                a = x.arg(0)
+                if z3.is_const(a) and a.decl().kind() == z3.Z3_OP_UNINTERPRETED:
+                    bound = ARRAY_BOUND.get(a.decl().name())
+                elif z3.is_app(a) and a.decl().kind() == z3.Z3_OP_SELECT and z3.is_const(a.arg(0)) \
+                        and a.arg(0).decl().kind() == z3.Z3_OP_UNINTERPRETED:
+                    bound = ARRAY_BOUND.get(a.arg(0).decl().name())
+            if bound is not None:
+                self.assumptions.append(z3.And(z3.Implies(is_Ref(x), rval(x) < bound), z3.Not(is_Unbound(x))))
+                self.__dict__.setdefault("_keepalive", []).append(x)
+            stack.extend(x.children())
+        return v
 
     # ------------------------------------------------------------------ assumptions / obligations
     def assume(self, st, fact):
@@ -227,16 +266,59 @@ class Exec(object):
         return cache[key]
 
     workdir = "/tmp/pyvc_q"
+    quick_timeout_ms = 250
+
+    def quick(self, st, fact):
+        """In-process, time-boxed entailment test used to prune type-dispatch noise.  Facts that mention
+        string operations are not attempted (z3's in-process string solver is not trusted to return)."""
+        from . import solve
+        f = simp(fact)
+        if z3.is_true(f):
+            return True
+        if z3.is_false(f):
+            return False
+        if not getattr(self, "use_quick", True):
+            return False
+        cache = self.__dict__.setdefault("_quick_cache", {})
+        key = (tuple(c.get_id() for c in st.conj), f.get_id())
+        if key in cache:
+            return cache[key]
+        coi = self.__dict__.setdefault("_coi_cache", {})
+        sc = self.__dict__.setdefault("_strop_cache", {})
+        if _has_string_ops(f, sc):
+            cache[key] = False
+            return False
+        # hypotheses that use string operations are dropped (sound: fewer hypotheses)
+        hyps = [c for c in st.conj if not _has_string_ops(c, sc)]
+        roots = hyps + [f]
+        asm = solve.relevant_assumptions(self.assumptions, roots, coi)
+        asm = [a for a in asm if not _has_string_ops(a, sc) and not z3.is_quantifier(a)]
+        s = z3.Solver()
+        s.set("timeout", self.quick_timeout_ms)
+        for a_ in asm:
+            s.add(a_)
+        for c in hyps:
+            s.add(c)
+        s.add(z3.Not(f))
+        r = s.check() == z3.unsat
+        self.__dict__.setdefault("_keepalive", []).append((roots, f))
+        cache[key] = r
+        self.quick_queries = getattr(self, "quick_queries", 0) + 1
+        return r
 
     def raise_if(self, st, ctx, cond, cls, msg=None, node=None):
         """Fork an exceptional path under `cond`; continue on the complement."""
         if ctx.spec:
             return
-        c = simp(z3.And(st.pc, cond))
-        if z3.is_false(c):
+        cond = simp(cond)
+        if z3.is_false(cond):
             return
         rs = st.fork()
-        rs.pc = c
+        rs.guard(cond)
+        if rs.dead:
+            return
+        if self.quick(st, z3.Not(cond)):
+            return
         ctx.raises.append((rs, Exc(cls, self.new_exc(rs, cls, msg if msg is not None else VStr(sv(cls))))))
         st.guard(z3.Not(cond))
 
@@ -262,7 +344,7 @@ class Exec(object):
             fr = st.frames.setdefault(fid, {})
             if name in fr:
                 v = fr[name]
-                if not ctx.spec:
+                if not ctx.spec and _mentions_unbound(v, self.__dict__.setdefault("_unb_cache", {})):
                     self.raise_if(st, ctx, is_Unbound(v), "UnboundLocalError", node=node)
                 return v
             if unit is not None and name in self.locals_of(unit):
@@ -565,7 +647,7 @@ class Exec(object):
             n = len(t.elts)
             self.raise_if(st, ctx, z3.Not(z3.And(is_Ref(v), z3.Or(ty(rval(v)) == T_TUPLE, ty(rval(v)) == T_LIST))),
                           "TypeError", node=t)
-            seq = simp(st.heap.lget(rval(v)))
+            seq = simp(BI.hlget(self, st, rval(v)))
             self.raise_if(st, ctx, BI.seq_len(seq) != n, "ValueError", node=t)
             for i, e in enumerate(t.elts):
                 ev = BI.seq_nth(seq, i)
@@ -821,12 +903,7 @@ class Exec(object):
         havoc_heap = heapw if (lc is None or lc.havoc_heap is None) else lc.havoc_heap
         if lc is not None and lc.modifies:
             sctx = ctx.derive(spec=True, pre=pre_loop, raises=[], returns=[])
-            h = hst.heap
-            for mnode in lc.modifies:
-                r = rval(self.eval(mnode, pre_loop.fork(), sctx))
-                h = Heap(z3.Store(h.DV, r, fresh("hv", KV)), z3.Store(h.DP, r, fresh("hp", KP)),
-                         z3.Store(h.LS, r, fresh("hl", SeqV)))
-            hst.heap = h
+            hst.heap = self.havoc_refs(hst.heap, lc.modifies, pre_loop, None, None, loop_ctx=sctx)
         elif havoc_heap:
             hst.heap = Heap(fresh("DVl", DVs), fresh("DPl", DPs), fresh("LSl", LSs))
         for g in list(hst.ghost):
@@ -904,7 +981,7 @@ class Exec(object):
                 parts.append(sv(v.value))
             elif isinstance(v, ast.FormattedValue):
                 x = self.eval(v.value, st, ctx)
-                parts.append(py_str(x, st.heap))
+                parts.append(BI.py_str2(self, st, x))
         if not parts:
             return VStr(sv(""))
         return VStr(simp(z3.Concat(*parts)) if len(parts) > 1 else parts[0])
@@ -1041,7 +1118,7 @@ class Exec(object):
                 return self.obj("builtin", o[1] + "." + e.attr)
         self.raise_if(st, ctx, z3.Not(is_Ref(v)), "AttributeError", node=e)
         self.key_universe.add(e.attr)
-        return st.heap.dget(rval(v), sv(e.attr))
+        return self.close_refs(BI.hget(self, st, rval(v), sv(e.attr)))
 
     def external_value(self, dn, ext, st, ctx):
         return VOpq(z3.IntVal(abs(hash(dn)) % 1000000))
@@ -1384,13 +1461,7 @@ class Exec(object):
         if c.modifies == "ALL":
             st.heap = Heap(fresh("DVh", DVs), fresh("DPh", DPs), fresh("LSh", LSs))
         elif c.modifies_ast:
-            h = st.heap
-            for mn in c.modifies_ast:
-                mv = self.eval_spec(mn, pre.fork(), fid, spec_unit, pre)
-                r = rval(mv)
-                h = Heap(z3.Store(h.DV, r, fresh("hv", KV)), z3.Store(h.DP, r, fresh("hp", KP)),
-                         z3.Store(h.LS, r, fresh("hl", SeqV)))
-            st.heap = h
+            st.heap = self.havoc_refs(st.heap, c.modifies_ast, pre, fid, spec_unit)
         # result
         if c.fresh_result in ("dict", "list", "tuple"):
             kind = {"dict": T_DICT, "list": T_LIST, "tuple": T_TUPLE}[c.fresh_result]
@@ -1409,6 +1480,9 @@ class Exec(object):
         # ghost updates (simultaneous, evaluated in the pre state)
         newg = {}
         for g, n in c.ghost.items():
+            if isinstance(n, ast.Name) and n.id == "__heap__":
+                newg[g] = pre.heap
+                continue
             v = self.eval_spec(n, pre.fork(), fid, spec_unit, pre, extra={"result": result})
             newg[g] = BI.unbox_like(v, st.ghost.get(g), pre)
         for g, v in newg.items():
@@ -1419,6 +1493,30 @@ class Exec(object):
             self.assume(st, g)
         st.frames.pop(fid, None)
         return result
+
+    def havoc_refs(self, heap, entries, pre, fid, unit, sctx_pre=None, loop_ctx=None):
+        """Havoc the contents of the objects named by modifies entries [(expr, guard)] (evaluated in `pre`)."""
+        h = heap
+        for mn, gn in entries:
+            if loop_ctx is not None:
+                mv = self.eval(mn, pre.fork(), loop_ctx)
+                g = self.truth(self.eval(gn, pre.fork(), loop_ctx), pre) if gn is not None else z3.BoolVal(True)
+            else:
+                mv = self.eval_spec(mn, pre.fork(), fid, unit, pre)
+                g = self.truth(self.eval_spec(gn, pre.fork(), fid, unit, pre), pre) if gn is not None else z3.BoolVal(True)
+            r = rval(mv)
+            h2 = Heap(z3.Store(h.DV, r, fresh("hv", KV)), z3.Store(h.DP, r, fresh("hp", KP)),
+                      z3.Store(h.LS, r, fresh("hl", SeqV)))
+            h = Heap.ite(simp(g), h2, h) if not is_true(g) else h2
+        return h
+
+    def modified_refs(self, entries, pre, fid, unit):
+        out = []
+        for mn, gn in entries:
+            mv = self.eval_spec(mn, pre.fork(), fid, unit, pre)
+            g = self.truth(self.eval_spec(gn, pre.fork(), fid, unit, pre), pre) if gn is not None else z3.BoolVal(True)
+            out.append((rval(mv), simp(g)))
+        return out
 
     # ------------------------------------------------------------------ verifying a unit against its contract
     def verify_unit(self, key, contract=None, mode="contract"):
@@ -1546,16 +1644,78 @@ class Exec(object):
         DV, DP, LS = pre.heap.DV, pre.heap.DP, pre.heap.LS
         refs = []
         if c.modifies_ast:
-            for mn in c.modifies_ast:
-                mv = self.eval_spec(mn, pre.fork(), efid, unit, pre)
-                refs.append(rval(mv))
-        refs += [z3.IntVal(r) for r in self.allocated[alloc0:]]
-        for r in refs:
-            DV = z3.Store(DV, r, z3.Select(fin.heap.DV, r))
-            DP = z3.Store(DP, r, z3.Select(fin.heap.DP, r))
-            LS = z3.Store(LS, r, z3.Select(fin.heap.LS, r))
+            refs += self.modified_refs(c.modifies_ast, pre, efid, unit)
+        refs += [(z3.IntVal(r), z3.BoolVal(True)) for r in self.allocated[alloc0:]]
+        for r, g in refs:
+            DV = ite(g, z3.Store(DV, r, z3.Select(fin.heap.DV, r)), DV)
+            DP = ite(g, z3.Store(DP, r, z3.Select(fin.heap.DP, r)), DP)
+            LS = ite(g, z3.Store(LS, r, z3.Select(fin.heap.LS, r)), LS)
         goal = z3.And(fin.heap.DV == DV, fin.heap.DP == DP, fin.heap.LS == LS)
         self.oblige(fin, "frame", label, goal, span=unit.span()[0])
+
+
+def _mentions_unbound(t, cache):
+    """Only values produced by merging with a missing binding (or `del`) can be VUnbound."""
+    k = t.get_id()
+    if k in cache:
+        return cache[k]
+    found = False
+    stack = [t]
+    seen = set()
+    while stack:
+        x = stack.pop()
+        i = x.get_id()
+        if i in seen:
+            continue
+        seen.add(i)
+        if i in cache:
+            if cache[i]:
+                found = True
+                break
+            continue
+        if z3.is_app(x):
+            if x.decl().eq(Val.VUnbound):
+                found = True
+                break
+            # do not look inside heap reads: the heap never holds VUnbound
+            if x.decl().kind() == z3.Z3_OP_SELECT:
+                continue
+            stack.extend(x.children())
+    cache[k] = found
+    return found
+
+
+_BAD_KINDS = set([z3.Z3_OP_SEQ_CONTAINS, z3.Z3_OP_SEQ_REPLACE, z3.Z3_OP_SEQ_REPLACE_RE, z3.Z3_OP_SEQ_REPLACE_RE_ALL,
+                  z3.Z3_OP_SEQ_REPLACE_ALL, z3.Z3_OP_SEQ_INDEX, z3.Z3_OP_SEQ_LAST_INDEX, z3.Z3_OP_SEQ_IN_RE,
+                  z3.Z3_OP_STR_TO_INT, z3.Z3_OP_INT_TO_STR, z3.Z3_OP_STRING_LT, z3.Z3_OP_STRING_LE,
+                  z3.Z3_OP_SEQ_PREFIX, z3.Z3_OP_SEQ_SUFFIX])
+
+
+def _has_string_ops(t, cache):
+    """Does the term use string/sequence *operations* (anything beyond string literals and equality)?"""
+    k = t.get_id()
+    if k in cache:
+        return cache[k]
+    bad = False
+    stack = [t]
+    seen = set()
+    while stack and not bad:
+        x = stack.pop()
+        i = x.get_id()
+        if i in seen:
+            continue
+        seen.add(i)
+        if z3.is_quantifier(x):
+            stack.append(x.body())
+            continue
+        if z3.is_app(x):
+            kind = x.decl().kind()
+            if kind in _BAD_KINDS:
+                bad = True
+                break
+            stack.extend(x.children())
+    cache[k] = bad
+    return bad
 
 
 def Contract_default(key):
